@@ -86,7 +86,48 @@ let read_uri (f : string array) (pos : int ref) : uri =
     { scheme; userInfo; hostText; ip4; ip6; ipFuture; portText; pathSegs = segs; query; fragment;
       absolutePath = abs; owner = false }
 
+let string_of_trace (evs : event list) : string =
+  match evs with
+  | [] -> "-"
+  | _ -> String.concat "" (List.map (function
+      | EvMalloc (sz, ok) -> Printf.sprintf "m%d%s," (int_of_n sz) (if ok then "" else "!")
+      | EvCalloc (sz, ok) -> Printf.sprintf "c%d%s," (int_of_n sz) (if ok then "" else "!")
+      | EvFree sz -> Printf.sprintf "f%d," (int_of_n sz)
+      | EvBadFree -> "f?,") evs)
+
+let plan_of f i =
+  if Array.length f > i then
+    let k = int_of_string f.(i) in
+    let from = Array.length f > i + 1 && f.(i + 1) <> "0" in
+    if k = 0 then NoFault else if from then FailFrom (nat_of_int k) else FailOnce (nat_of_int k)
+  else NoFault
+
+(* every field of a memory-tier URI as the C driver prints it *)
+let string_of_muri (m : muri) : string = string_of_uri (erase m)
+let prov_of_muri (m : muri) : string =
+  let cls (t : mtext) = match t.t_val with None -> "-" | Some [] -> "e" | Some _ -> (match t.t_blk with Some _ -> "h" | None -> "i") in
+  String.concat "" (List.map cls [m.m_scheme; m.m_userInfo;
+     (match m.m_ipFuture.t_val with Some _ -> { t_val = m.m_hostText.t_val; t_blk = m.m_ipFuture.t_blk } | None -> m.m_hostText);
+     m.m_ipFuture; m.m_portText; m.m_query; m.m_fragment])
+  ^ "/" ^ String.concat "" (List.map (fun s -> if s.sg_text = [] then "e" else (match s.sg_blk with Some _ -> "h" | None -> "i")) m.m_segs)
+
+(* parse with a fault plan: memory tier *)
+let op_parse_m f =
+  let l = text_of_field_nn f.(1) in
+  let st0 = ms_init (plan_of f 3) in
+  let (r, st) = parse_m l st0 in
+  let reqs = int_of_nat st.ms_requests in
+  (* the caller's clean-up: uriFreeUriMembersMm twice *)
+  let (body, st) = match r with
+    | MOk m ->
+      let s = Printf.sprintf "parse 0 -1 %s prov=%s" (string_of_muri m) (prov_of_muri m) in
+      let (m1, st1) = free_members m st in let (_, st2) = free_members m1 st1 in (s, st2)
+    | MSyntax pos -> (Printf.sprintf "parse 1 %d E" (int_of_nat pos), st)
+    | MMalloc -> ("parse 3 null E", st) in
+  Printf.sprintf "%s live=%d badfree=%d req=%d trace=%s" body (int_of_nat (live_count st)) (int_of_nat (bad_frees st)) reqs (string_of_trace (trace_of st))
+
 let op_parse f =
+  if Array.length f > 3 then op_parse_m f else
   let l = text_of_field_nn f.(1) in
   let entry = int_of_string f.(2) in
   let r = if entry = 1 || entry = 2 || entry = 4 then parse_cstr l else parse l in
@@ -302,6 +343,123 @@ let op_hist f =
   Buffer.add_string buf " | end live=0 bad=0";
   Buffer.contents buf
 
+(* ================= memory tier ====================================================== *)
+let csize_of () = n_of_int (match Sys.getenv_opt "DRV_CSIZE" with Some "4" -> 4 | _ -> 1)
+
+let with_plan (st : mstate) (p : fault_plan) : mstate =
+  { st with ms_requests = O; ms_plan = p }
+
+(* a URI argument in the memory tier; allocations in the order harness/drv_uri.inc:read_uri makes them *)
+let read_muri (f : string array) (pos : int ref) (st : mstate) : muri * mstate =
+  let next () = let x = f.(!pos) in incr pos; x in
+  match next () with
+  | "P" ->
+    (match parse_m (text_of_field_nn (next ())) st with
+     | (MOk m, st') -> (m, st')
+     | (_, _) -> raise (Arg_parse_error 1))
+  | _ ->
+    let bt o = { t_val = o; t_blk = None } in
+    let scheme = text_of_field (next ()) in
+    let userInfo = text_of_field (next ()) in
+    let hostText = text_of_field (next ()) in
+    let ip4 = text_of_field (next ()) in
+    let ip6 = text_of_field (next ()) in
+    let st = ref st in
+    let al calloc sz = (match alloc calloc sz !st with (Some id, s') -> st := s'; id | (None, s') -> st := s'; O) in
+    let m_ip4 = (match ip4 with Some v -> Some (v, al false iP4_SIZE) | None -> None) in
+    let m_ip6 = (match ip6 with Some v -> Some (v, al false iP6_SIZE) | None -> None) in
+    let ipFuture = text_of_field (next ()) in
+    let portText = text_of_field (next ()) in
+    let abs = bool_of_field (next ()) in
+    let n = int_of_string (next ()) in
+    let segs = List.init n (fun _ -> let t = text_of_field_nn (next ()) in { sg_text = t; sg_blk = None; sg_node = al true sEG_SIZE }) in
+    let query = text_of_field (next ()) in
+    let fragment = text_of_field (next ()) in
+    ({ m_scheme = bt scheme; m_userInfo = bt userInfo; m_hostText = bt hostText; m_ip4; m_ip6; m_ipFuture = bt ipFuture;
+       m_portText = bt portText; m_segs = segs; m_query = bt query; m_fragment = bt fragment; m_abs = abs; m_owner = false }, !st)
+
+let free2 m st = let (m1, s1) = free_members m st in let (_, s2) = free_members m1 s1 in s2
+let rec drop k l = if k <= 0 then l else (match l with [] -> [] | _ :: r -> drop (k - 1) r)
+(* events of the operation only: those after the first n0 *)
+let fault_tail f i reqs st n0 =
+  if Array.length f > i then Printf.sprintf " req=%d trace=%s" reqs (string_of_trace (drop n0 (trace_of st))) else ""
+
+let op_addbase_m f =
+  let compat = bool_of_field f.(1) in
+  let pos = ref 2 in
+  match (try let (r, s1) = read_muri f pos (ms_init NoFault) in let (b, s2) = read_muri f pos s1 in Some (r, b, s2) with Arg_parse_error _ -> None) with
+  | None -> "addbase parse-error"
+  | Some (rel, base, st) ->
+    let before = int_of_nat (live_count st) in
+    let st = with_plan st (plan_of f !pos) in
+    let n0 = List.length st.ms_trace in
+    let ((rc, d), st) = add_base_m compat rel base st in
+    let reqs = int_of_nat st.ms_requests in
+    let tail = fault_tail f !pos reqs st n0 in
+    let st = with_plan st NoFault in
+    let rc = int_of_n rc in
+    let pure = (let (prc, pd) = add_base compat (erase rel) (erase base) in if int_of_n prc = 0 then Some pd else None) in
+    let chk = if Array.length f <= !pos && (match pure with Some pd -> rc <> 0 || erase d <> pd | None -> rc = 0) then " !erasure-mismatch" else "" in
+    let body = if rc = 0 then Printf.sprintf "addbase 0 %s%s" (string_of_muri d) (text_tag (erase d)) else Printf.sprintf "addbase %d E" rc in
+    let st = free2 d st in
+    Printf.sprintf "%s ro=1 live=%d bad=%d%s%s" body (int_of_nat (live_count st) - before) (int_of_nat (bad_frees st)) tail chk
+
+let op_removebase_m f =
+  let dr = bool_of_field f.(1) in
+  let pos = ref 2 in
+  match (try let (r, s1) = read_muri f pos (ms_init NoFault) in let (b, s2) = read_muri f pos s1 in Some (r, b, s2) with Arg_parse_error _ -> None) with
+  | None -> "removebase parse-error"
+  | Some (src, base, st) ->
+    let before = int_of_nat (live_count st) in
+    let st = with_plan st (plan_of f !pos) in
+    let n0 = List.length st.ms_trace in
+    let ((rc, d), st) = remove_base_m dr src base st in
+    let reqs = int_of_nat st.ms_requests in
+    let tail = fault_tail f !pos reqs st n0 in
+    let st = with_plan st NoFault in
+    let rc = int_of_n rc in
+    let body = if rc = 0 then Printf.sprintf "removebase 0 %s%s" (string_of_muri d) (text_tag (erase d)) else Printf.sprintf "removebase %d E" rc in
+    let st = free2 d st in
+    Printf.sprintf "%s ro=1 live=%d bad=%d%s" body (int_of_nat (live_count st) - before) (int_of_nat (bad_frees st)) tail
+
+let op_normalize_m f =
+  let mask = int_of_string f.(1) in
+  let owned = bool_of_field f.(2) in
+  let pos = ref 3 in
+  match (try Some (read_muri f pos (ms_init NoFault)) with Arg_parse_error _ -> None) with
+  | None -> "normalize parse-error"
+  | Some (u, st) ->
+    let (u, st) = if owned then (let ((_, u'), st') = make_owner_m (csize_of ()) u st in (u', st')) else (u, st) in
+    let before = int_of_n (mask_required (erase u)) in
+    let st = with_plan st (plan_of f !pos) in
+    let n0 = List.length st.ms_trace in
+    let ((rc, v), st) = normalize_m (csize_of ()) (n_of_int mask) u st in
+    let reqs = int_of_nat st.ms_requests in
+    let tail = fault_tail f !pos reqs st n0 in
+    let st = with_plan st NoFault in
+    let rc = int_of_n rc in
+    let body = if rc = 0 then Printf.sprintf "normalize 0 %d %s%s %d prov=%s" before (string_of_muri v) (text_tag (erase v)) (int_of_n (mask_required (erase v))) (prov_of_muri v)
+               else Printf.sprintf "normalize %d %d E" rc before in
+    let st = free2 v st in
+    Printf.sprintf "%s ro=1 live=%d bad=%d%s" body (int_of_nat (live_count st)) (int_of_nat (bad_frees st)) tail
+
+let op_makeowner_m f =
+  let pos = ref 1 in
+  match (try Some (read_muri f pos (ms_init NoFault)) with Arg_parse_error _ -> None) with
+  | None -> "makeowner parse-error"
+  | Some (u, st) ->
+    let st = with_plan st (plan_of f !pos) in
+    let n0 = List.length st.ms_trace in
+    let ((rc, v), st) = make_owner_m (csize_of ()) u st in
+    let reqs = int_of_nat st.ms_requests in
+    let tail = fault_tail f !pos reqs st n0 in
+    let st = with_plan st NoFault in
+    let rc = int_of_n rc in
+    let body = if rc = 0 then Printf.sprintf "makeowner 0 %s%s prov=%s again%s" (string_of_muri v) (text_tag (erase v)) (prov_of_muri v) (text_tag (erase v))
+               else Printf.sprintf "makeowner %d E" rc in
+    let st = free2 v st in
+    Printf.sprintf "%s live=%d bad=%d%s" body (int_of_nat (live_count st)) (int_of_nat (bad_frees st)) tail
+
 let dispatch (f : string array) : string =
   match f.(0) with
   | "esc" -> op_esc f
@@ -313,10 +471,14 @@ let dispatch (f : string array) : string =
   | "parse" -> op_parse f
   | "spec_split" -> op_spec_split f
   | "tostring" -> op_tostring f
-  | "addbase" -> op_addbase f
-  | "removebase" -> op_removebase f
-  | "normalize" -> op_normalize f
-  | "makeowner" -> op_makeowner f
+  | "addbase" -> op_addbase_m f
+  | "removebase" -> op_removebase_m f
+  | "normalize" -> op_normalize_m f
+  | "makeowner" -> op_makeowner_m f
+  | "addbase_pure" -> op_addbase f
+  | "removebase_pure" -> op_removebase f
+  | "normalize_pure" -> op_normalize f
+  | "makeowner_pure" -> op_makeowner f
   | "equals" -> op_equals f
   | "spec_canon" -> op_spec_canon f
   | "spec_resolve" -> op_spec_resolve f
